@@ -435,7 +435,13 @@ def one_case(run, seed, idx, mods):
                 tr.parameterobj.set_parameters({"cell__a": cell[0], "cell__b": cell[1], "cell__c": cell[2], "cell_alpha": cell[3],
                                                 "cell_beta": cell[4], "cell_gamma": cell[5],
                                                 "cell_lattice_[P,A,B,C,I,F,R]": sy, "wavelength": wl})
-                tr.addcellpeaks(limit=tthlim)
+                try:
+                    tr.addcellpeaks(limit=tthlim)
+                except IndexError:
+                    # no reflection of this centring below the limit: makerings has no ring to make (the input class removed
+                    # from the ring checks earlier, see Corrections); nothing to judge
+                    run.count("transformer_addcellpeaks_no_reflection_below_limit")
+                    continue
                 run.count("transformer_addcellpeaks_calls")
                 tdesc = dict(desc, route="transformer.addcellpeaks", sym=sy, history=["centring %s" % q for q in syms[:step_ + 1]],
                              dsmax=float(tr.dslimit))
